@@ -5,22 +5,42 @@ Engine.price_with_constant_mc_paths_and_level, closed by the scripted coupling o
 
 Alphabet  environment answer per (level, batch): the statistical regime of the samples of that batch
           (default / zero variance / large variance / zero mean / persistent mean), which steers the adaptive loop through
-          "add samples", "within 1 %", "converged", "add level", "maximum level reached", "all dNl zero".
+          "add samples", "within 1 %", "converged", "add level", "maximum level reached", "no sample asked for".
 Bound     all choice sequences with at most D deviations from the default regime (D = 2 quick, 3 thorough) for every
           configuration of the lattice {initial_level, maximum_level, initial_mc_paths, rmse, rates given/regressed,
           control variates none/one, payoff scalar/2-vector, discount factor, notional}; horizon 40 batches per level.
 Options   nb_of_processes in {1, 2, 3, None}: for every value but 1 the engine takes its multiprocessing branch
           (pool.map_async + callback); the pool is mlmc_driver.SimulatedPool (workers = per-chunk dill copies of the task,
-          results in index order, one callback in the parent). Subs "adaptive-pool" / "fixed-pool": every configuration of
-          the quick lattice (both tiers) with one deviation and 2 processes, its sub-lattice {no cv, scalar, rmse 0.5, N0 5,
-          rates given} with None (and 3 in thorough), in thorough the two deep configurations with two deviations; the
-          fixed-level variant with 2 and None.
+          results in index order, one callback in the parent). Subs "adaptive-pool" / "fixed-pool": the given-rates half of
+          the quick lattice (quick; the whole quick lattice in thorough) with one deviation and 2 processes, its sub-lattice
+          {no cv, scalar, rmse 0.5, N0 5, rates given} with None (and 3 in thorough), in thorough the two deep
+          configurations with two deviations; the fixed-level variant with 2 and None (quick: None only where its chunks
+          differ from those of 2 processes, i.e. more than two samples per level, and not for the round-4 additions). activate_spot_statistics=True (the path managers also evaluate the modelled underlying): fixed-level
+          (4 levels / one level with one sample), adaptive with and without the pool (sub "adaptive-options": one
+          deviation for the spot option, the numpy integers and the 3-vector with control variates; default regimes only,
+          in quick, for the pool twin of the spot option and the scalar / one-element strikes).
+Sizes     degenerate: initial_mc_paths = 0 (fixed-level: no sample anywhere; adaptive, sub "adaptive-degenerate": the engine's
+          "initial number of paths probably too low" exit; judged: counts, stored rows, accessors, reads do not raise;
+          price() of a level without sample is read, not judged; a tree that refuses the size is counted
+          `degenerate-size-rejected`), initial_mc_paths = 1 (fixed-level; adaptive: every variance is 0 and the run walks
+          to the maximum level with one sample per level), initial level = maximum level, a single level (fixed (0,0)).
+          large: fixed-level with 8 levels (7 of them added by one extend) and with 33 samples (pool chunks of several
+          items); sub "adaptive-big": arrays of 1100 rows topped up to about 5 000 / 5 700 / 5 800 rows in four passes (one
+          deviation; through the pool with none) and, one run, to about 80 000 / 91 000 / 93 000 rows (beyond 2**15 and
+          2**16 rows, 3-4 passes beyond).
+Forms     payoff dimension and form of the strike: Forward (scalar), Vanilla with a float strike, a list of one, a list / a
+          tuple of two, a numpy array of three strikes; the integer arguments (initial_level, maximum_level,
+          initial_mc_paths) as Python ints or numpy int64 / int32 scalars; the accessors with numpy integer level / start /
+          end.
 Oracle    reference model = plain list of (fine, coarse) per level appended at every simulate call. After every
           set_mlmc_results and at return: Nl[l] == len(ref[l]); the rows of level l's payoff array are exactly the
           discounted notional-scaled payoffs of ref[l], in order (no placeholder row, nothing missing / duplicated /
-          overwritten); coarse == 0 at level 0; price(no cv) == sum_l mean(fine-coarse); at return the public accessors
-          simulation_payoff_with_fine_process / _coarse_process (whole and with start / end) give the reference rows; Nl, ml,
-          vl, mean_level_l, var_level_l, kurtosis, consistency_check, cl, cost equal PLAIN NUMPY statistics of the reference
+          overwritten); coarse == 0 at level 0; price(no cv) == sum_l mean(fine-coarse) (tolerance: 1e-11 relative plus the
+          forward error bound n u mean|x| of summing the two columns); set_mlmc_results leaves the Nl / sum_cost arrays it is
+          given unchanged; at return the public accessors simulation_payoff_with_fine_process / _coarse_process give the
+          reference rows: whole, with start / end, at the exact ties of the range (end 0, start = end, start = n, end = n,
+          start 0, negative start) and with numpy integer arguments; Nl, ml, vl, mean_level_l, var_level_l, kurtosis,
+          consistency_check, cl, cost equal PLAIN NUMPY statistics of the reference
           lists (independent of the library's moment helpers; tolerances = forward error bounds of the non-centred-moment
           formulas, a few ulps of mean^2; consistency_check elements whose denominator is not determined to 1e-3 by those
           bounds are counted `cc-degenerate`, not judged).
@@ -33,16 +53,37 @@ histories   (a) every run: the returned results object is read in the canonical 
                 rest after in canonical order, each on a fresh results object;
             (d) subs "*-orders": all 720 orders of the six quantities, for three configurations (adaptive with late
                 levels, fixed-level, adaptive through the pool), sharded by the first quantity.
+          (c) is not repeated in the "fixed-pool" cases (the results object never sees the pool; "fixed" has the same
+          configurations).
+Copies    first run of every case (first shard):
+            (e) results objects (no control variates; not in "fixed-pool", as (c)): {copy.copy, copy.deepcopy, dill round trip} x {nothing / ml and vl
+                (what the engine reads) / everything read on the original before the copy}: the copy, read in the scripts'
+                order, reports the reference values and the original's Nl, cl, cost; the original read afterwards too;
+            (f) statistics object at return, copied (copy / deepcopy / dill) while its results object is unread: the copy
+                passes the whole oracle of the return point (rows, price, accessors, reported quantities);
+            (g) statistics object MID-RUN: at each of the first four set_mlmc_results of the run a deepcopy / dill copy
+                (alternating) is put aside; after the run has finished each must still pass the whole oracle against the
+                samples simulated up to its own observation point (the later passes must not reach into it).
 Engine    subs "*-reprice": the Engine object has priced before (prior = adaptive run with another rmse, or fixed-level
 histories run; all regimes default); the run under test is its SECOND pricing and must report its own samples only.
+          subs "*-engine-copy": the Engine object that prices is a deepcopy / dill round trip of the constructed one
+          ("fresh"), of one that has priced before ("after-prior"), or a copy taken inside the prior pricing of the
+          original, used after the original has finished ("midrun-of-prior"); adaptive (six kind x moment combinations, two through the pool;
+          quick: one deviation for deepcopy:after-prior and dill:midrun-of-prior, default regimes for the others) and
+          fixed-level (four).
 With control variates: stored payoff and control rows, price(no cv), Nl, cl, cost as above; of the adjusted samples only
           the bookkeeping (one adjusted row per simulated sample; price() = sum of the per-level means of the adjusted rows).
-Not covered: the random streams of the pool workers (C08), real coupling processes (C03), spot statistics plots, the
+Not covered: the random streams of the pool workers (C08), real coupling processes (C03), spot statistics plots and the
+          values stored in the spot statistics, the
           values of the control-variate adjusted samples and the results computed from them (C07), NonCenteredMoments read
           directly in an order MLMCResults never uses (ncm_third / ncm_fourth first raise TypeError on the pinned tree: not a
           reported quantity), results objects of earlier passes of the same run read after later passes (they alias the
-          engine's Nl / sum_cost arrays; the statement is about what a run reports), the adaptive algorithm with
-          initial_level < 2 (Engine.price raises IndexError in the bias test before anything is reported: C06's exclusion).
+          engine's Nl / sum_cost arrays; the statement is about what a run reports - a COPY of such an object is judged,
+          (g)), the adaptive algorithm with initial_level < 2 (Engine.price raises IndexError in the bias test before
+          anything is reported: C06's exclusion), the fixed-level variant with initial_level > maximum_level (not a
+          multilevel configuration), initial_mc_paths given as a float or a numpy uint64 (the pinned tree
+          raises TypeError), MLMCStatistics.mc_stddev (C07), the engine's branch for more than 10 million
+          paths at level 0 (a logging branch, out of any budget).
 """
 from __future__ import annotations
 
@@ -61,10 +102,13 @@ RULE = (
     "default, x the stated values of nb_of_processes; one evaluation = one level (or one reported quantity, or one accessor "
     "call) compared at one observation point of a complete run of the real Engine.price (or the fixed-level variant); every "
     "run's results are read in the canonical order and, on a second results object, after the next run; the first run of "
-    "a case is read in all 30 first-pair orders, the '-orders' cases in all 720 orders; a configuration is "
+    "a case is read in all 30 first-pair orders, the '-orders' cases in all 720 orders; on the first run of a case copies "
+    "(copy / deepcopy / dill) of the results object (read in part before), of the returned statistics object and of the "
+    "statistics object at each of its first four mid-run observation points are judged like the originals; a configuration is "
     "non-trivial when its runs produced at least two distinct loop trajectories (sequence of (levels, Nl) at each "
     "set_mlmc_results) or, for the fixed-level variant, at least one compared level or, for an '-orders' case, its 120 "
-    "orders were compared; states = distinct loop trajectories, transitions = choice points taken"
+    "orders were compared or, with initial_mc_paths = 0 or the default regimes only (bound 0), the run returned and its levels were "
+    "compared; states = distinct loop trajectories, transitions = choice points taken"
 )
 ASSUMPTIONS = [
     "the coupling process is a scripted stand-in (mc/mlmc_driver.py) implementing the interface the engine uses; the "
@@ -94,6 +138,10 @@ ACCESSOR_MENU = (
 
 
 class Horizon(Exception):
+    pass
+
+
+class CopyRefused(Exception):
     pass
 
 
@@ -193,6 +241,8 @@ def cases(tier):
     for (L0, Lmax, N0) in (((0, 1, 2), (2, 3, 2), (1, 3, 7)) if thorough else ((0, 1, 2), (2, 3, 2))):
         for cv in ("none", "one"):
             for payoff in ("calls", "call1", "call2t", "call3"):
+                if not thorough and (L0, cv) == (2, "one") and payoff in ("calls", "call2t"):
+                    continue
                 fixed.append({"sub": "fixed", "L0": L0, "Lmax": Lmax, "N0": N0, "cv": cv, "payoff": payoff, "df": 0.9,
                               "notional": 2.5, "bound": 1, "shard": [0, 1]})
     # many levels (all but the first added by one extend) and a sample size beyond the chunk size of the simulated pool;
@@ -201,6 +251,8 @@ def cases(tier):
                   {"L0": 0, "Lmax": 1, "N0": 2, "ints": "int32"}, {"L0": 1, "Lmax": 3, "N0": 7, "spot": True},
                   {"L0": 0, "Lmax": 0, "N0": 1, "spot": True}):
         for payoff in ("forward", "call2"):
+            if not thorough and (extra["Lmax"], payoff) in ((7, "call2"), (5, "forward")):
+                continue
             fixed.append(dict({"sub": "fixed", "cv": "none", "payoff": payoff, "df": 0.9, "notional": 2.5, "bound": 1,
                                "shard": [0, 1]}, **extra))
     out += fixed
@@ -220,7 +272,9 @@ def cases(tier):
                 for i in range(n):
                     out.append(dict(c, sub="adaptive-pool", procs=2 if c["N0"] == 2 else None, bound=2, shard=[i, n]))
     for c in fixed:
-        for procs in (2, None):
+        historic = c["N0"] > 0 and c["payoff"] in ("forward", "call2") and not (c.get("ints") or c.get("spot")) and c["Lmax"] <= 3
+        # (with one or two items the chunks of None = 3 workers are those of 2 workers)
+        for procs in ((2, None) if (thorough or (historic and c["N0"] > 2)) else (2,)):
             out.append(dict(c, sub="fixed-pool", procs=procs))
     # histories on a re-used Engine object: it has priced before (adaptive with another rmse / fixed-level), all regimes default
     for c in configs(False):
@@ -233,6 +287,16 @@ def cases(tier):
         if c["N0"] == 7 and c["cv"] == "none" and c["payoff"] == "forward":
             for prior in (("fixed", "adaptive") if c["L0"] >= 2 else ("fixed",)):
                 out.append(dict(c, sub="fixed-reprice", prior=prior))
+    # accumulation beyond the usual small-size thresholds of an allocation policy: levels whose arrays hold more than 1024 /
+    # 4096 rows (and, one run, more than 2**15 / 2**16 rows) topped up three or four times
+    big = {"sub": "adaptive-big", "L0": 2, "Lmax": 3, "N0": 1100, "rmse": 0.08, "rates": "regressed", "cv": "none",
+           "payoff": "forward", "df": 0.9, "notional": 2.5, "shard": [0, 1]}
+    out.append(dict(big, bound=1))
+    out.append(dict(big, bound=0, procs=2))
+    out.append(dict(big, bound=0, rmse=0.02))
+    if thorough:
+        out.append(dict(big, bound=1, cv="one"))
+        out.append(dict(big, bound=1, payoff="call2", procs=None))
     # degenerate sizes of the adaptive algorithm: no initial sample (the engine's "initial number of paths too low" exit) and
     # one initial sample (every level variance is 0: the run adds levels with their single mandatory sample up to the maximum)
     for N0 in (0, 1):
@@ -247,15 +311,18 @@ def cases(tier):
     # options and argument forms of the adaptive entry point: spot statistics, numpy integer scalars, payoff dimensions
     c0 = {"L0": 2, "Lmax": 3, "N0": 5, "rmse": 0.5, "rates": "given", "cv": "none", "payoff": "forward", "df": 0.9,
           "notional": 2.5, "bound": 1, "shard": [0, 1]}
-    for extra in ({"spot": True}, {"spot": True, "procs": 2, "payoff": "call2"}, {"ints": "int64"}, {"payoff": "call3", "cv": "one"},
-                  {"payoff": "calls"}, {"payoff": "call1", "procs": 2}):
-        out.append(dict(c0, sub="adaptive-options", **extra))
+    for extra in ({"spot": True}, {"spot": True, "procs": 2, "payoff": "call2", "bound": 0}, {"ints": "int64"},
+                  {"payoff": "call3", "cv": "one"}, {"payoff": "calls", "bound": 0}, {"payoff": "call1", "procs": 2, "bound": 0}):
+        c = dict(c0, sub="adaptive-options", **extra)
+        out.append(dict(c, bound=1) if thorough else c)
     # copies of the Engine object: the engine that prices is a deepcopy / dill round trip of the constructed one, of one that
     # has priced before, or one taken while the original was pricing (used after the original has finished)
     for kind, when, prior, procs in (("deepcopy", "fresh", None, 1), ("dill", "fresh", None, 2), ("deepcopy", "after-prior", "adaptive", 1),
                                      ("dill", "after-prior", "fixed", 1), ("deepcopy", "midrun-of-prior", "adaptive", 2),
                                      ("dill", "midrun-of-prior", "adaptive", 1)):
         c = dict(c0, sub="adaptive-engine-copy", engine_copy=f"{kind}:{when}")
+        if not thorough and (kind, when) not in (("deepcopy", "after-prior"), ("dill", "midrun-of-prior")):
+            c["bound"] = 0
         if prior:
             c["prior"] = prior
         if procs != 1:
@@ -313,10 +380,11 @@ def ref_arrays(case, rec, level):
     lst = rec.samples.get(level, [])
     dim = D.payoff_dim(case["payoff"])
     out = np.zeros((len(lst), dim, 2))
-    for i, (f, c) in enumerate(lst):
-        out[i, :, 0] = D.payoff_ref(case["payoff"], case["notional"], case["df"], f)
+    if lst:
+        fc = np.array(lst, dtype=float)
+        out[:, :, 0] = D.payoff_ref_rows(case["payoff"], case["notional"], case["df"], fc[:, 0])
         if level > 0:
-            out[i, :, 1] = D.payoff_ref(case["payoff"], case["notional"], case["df"], c)
+            out[:, :, 1] = D.payoff_ref_rows(case["payoff"], case["notional"], case["df"], fc[:, 1])
     return out
 
 
@@ -325,15 +393,14 @@ def cv_ref_arrays(case, rec, level):
     n = len(lst)
     dim = D.payoff_dim(case["payoff"])
     nt, df = case["notional"], case["df"]
+    fc = np.array(lst, dtype=float).reshape(n, 2)
     if level == 0:
         out = np.zeros((n, 1, dim))
-        for i, (f, c) in enumerate(lst):
-            out[i, 0, :] = nt * (f - 0.125) * df
+        out[:, 0, :] = (nt * (fc[:, 0] - 0.125) * df)[:, None]
     else:
         out = np.zeros((n, 1, dim, 2))
-        for i, (f, c) in enumerate(lst):
-            out[i, 0, :, 0] = nt * (f - 0.125) * df
-            out[i, 0, :, 1] = nt * (c - 0.125) * df
+        out[:, 0, :, 0] = (nt * (fc[:, 0] - 0.125) * df)[:, None]
+        out[:, 0, :, 1] = (nt * (fc[:, 1] - 0.125) * df)[:, None]
     return out
 
 
@@ -396,12 +463,15 @@ def compare_state(sh, case, rec, stats, Nl, sum_cost, where, variant, final=None
     # price without control variates: sum of per-level means of component 0
     try:
         p = stats.price(no_control_variates=True)
+        # price() subtracts the column means of the stored rows: forward error bound of the recursive summation of n terms,
+        # n u mean|x| per column (the columns are large - unique ids - and their difference small)
+        sum_bound = U * sum(f.size * float(np.mean(np.abs(f)) + np.mean(np.abs(c))) for f, c in zip(ref_fine, ref_coarse) if f.size)
         p_ref = sum((float(np.mean(f - c)) if f.size else 0.0) for f, c in zip(ref_fine, ref_coarse))
         if not all(f.size for f in ref_fine):
             # a level without any sample (initial_mc_paths = 0) has no sample mean: price() is read (it must not raise on a
             # returned object) but its value is not judged
             sh.count("price-not-judged:level-without-sample")
-        elif not core.close(p, p_ref, rtol=1e-11, atol=1e-13):
+        elif not core.close(p, p_ref, rtol=1e-11, atol=1e-13 + sum_bound):
             sh.violation(f"C05:{variant}:price-differs-from-sum-of-level-means:{cvk}:{dimk}",
                          f"{tag}: price(no cv) = {p!r} but sum of per-level sample means = {p_ref!r}",
                          {"Nl": Nl.tolist(), "regimes": rec.regime_log})
@@ -466,7 +536,7 @@ def compare_state(sh, case, rec, stats, Nl, sum_cost, where, variant, final=None
         # the control-variate adjusted samples (what price() and the results use then): one row per simulated sample, and
         # price() is the sum of the per-level means of exactly those rows (their values are the subject of C07)
         try:
-            p_cv, p_sum, p_big = stats.price(), 0.0, 1.0
+            p_cv, p_sum, p_big = stats.price(), 0.0, 64.0
             for level in range(min(nlev, len(stats.mc_statistics))):
                 gf = np.asarray(stats.simulation_payoff_with_fine_process(level), dtype=float)
                 gc = np.asarray(stats.simulation_payoff_with_coarse_process(level), dtype=float)
@@ -478,8 +548,8 @@ def compare_state(sh, case, rec, stats, Nl, sum_cost, where, variant, final=None
                                  {"regimes": rec.regime_log})
                 if gf.size:
                     p_sum += float(np.mean(gf) - np.mean(gc))
-                    p_big += float(np.max(np.abs(gf)) + np.max(np.abs(gc)))
-            if not core.close(float(np.ravel(p_cv)[0]), p_sum, rtol=1e-10, atol=64 * U * p_big):
+                    p_big += float(np.max(np.abs(gf)) + np.max(np.abs(gc))) * max(64, gf.size)  # summation bound, as above
+            if not core.close(float(np.ravel(p_cv)[0]), p_sum, rtol=1e-10, atol=U * p_big):
                 sh.violation(f"C05:{variant}:cv-adjusted-price-differs-from-sum-of-level-means:{dimk}",
                              f"{tag}: price() = {p_cv!r} but the per-level means of the adjusted samples sum to {p_sum!r}",
                              {"regimes": rec.regime_log})
@@ -589,6 +659,17 @@ def variant_of(case):
     return out
 
 
+def copy_refused(sh, key, kind, e):
+    """copy.copy / copy.deepcopy are the protocol the library itself applies to these classes: a refusal is reported. A dill
+    round trip of a statistics / results object is something no library route performs: an object that cannot be pickled
+    reports nothing wrong - counted, not judged (a copy that exists is judged in full)."""
+    if kind == "dill":
+        sh.count("dill-copy-refused")
+        sh.note(f"dill round trip refused ({type(e).__name__}): counted, not judged")
+    else:
+        sh.violation(f"{key}:{kind}:{type(e).__name__}", f"{e!r}", None)
+
+
 class _DefaultAnswers:
     def choose(self, arity, label=""):
         return 0
@@ -618,6 +699,17 @@ def run_once(sh, case, chooser, extras=False):
     snaps = []
     orig = MLMCStatistics.set_mlmc_results
 
+    def engine_copy(e):
+        try:
+            return copy_of(e, ec_kind)
+        except Exception as ex:  # noqa
+            if ec_kind != "dill":
+                raise
+            # no library route pickles an Engine: an engine that cannot be pickled prices nothing wrong (counted)
+            sh.count("dill-copy-refused")
+            sh.note(f"dill round trip of the Engine refused ({type(ex).__name__}): counted, not judged")
+            raise CopyRefused() from ex
+
     def observed(self, Nl, sum_cost):
         given = (np.array(Nl, copy=True), np.array(sum_cost, copy=True))
         orig(self, Nl, sum_cost)
@@ -626,14 +718,14 @@ def run_once(sh, case, chooser, extras=False):
                          f"{variant}: Nl {given[0].tolist()} -> {np.asarray(Nl).tolist()}, sum_cost {given[1].tolist()} -> "
                          f"{np.asarray(sum_cost).tolist()}", {"regimes": rec.regime_log})
         last["Nl"], last["sum_cost"] = given
-        if extras and len(snaps) < 6:
+        if extras and len(snaps) < 4:
             # a copy of the statistics object (with its unread results object) mid-run, judged after the run
             kind = ("deepcopy", "dill")[len(traj) % 2]
             counts = {l: len(v) for l, v in rec.samples.items()}
             try:
                 snaps.append((kind, copy_of(self, kind), given[0], counts))
             except Exception as e:  # noqa
-                sh.violation(f"C05:{variant}:copy-of-statistics-raises:midrun:{kind}:{type(e).__name__}", f"{variant}: {e!r}", None)
+                copy_refused(sh, f"C05:{variant}:copy-of-statistics-raises:midrun", kind, e)
         traj.append(compare_state(sh, case, rec, self, Nl, sum_cost, f"set_mlmc_results#{len(traj)}", variant))
 
     # horizon guard through the recorder's chooser
@@ -654,7 +746,7 @@ def run_once(sh, case, chooser, extras=False):
             with (D.pool_installed() if pool else contextlib.nullcontext()) as pools:
                 if ec_when == "fresh":
                     # history: the Engine object that prices is a copy of the one that was constructed
-                    eng = copy_of(eng, ec_kind)
+                    eng = engine_copy(eng)
                 if case.get("prior"):
                     # history: this Engine object has priced before; the reference model starts again afterwards
                     rec.chooser = _DefaultAnswers()
@@ -663,7 +755,7 @@ def run_once(sh, case, chooser, extras=False):
                         def grab(self, Nl, sum_cost):
                             orig(self, Nl, sum_cost)
                             if not grabbed:
-                                grabbed.append(copy_of(eng, ec_kind))
+                                grabbed.append(engine_copy(eng))
 
                         MLMCStatistics.set_mlmc_results = grab
                     try:
@@ -671,7 +763,7 @@ def run_once(sh, case, chooser, extras=False):
                     finally:
                         MLMCStatistics.set_mlmc_results = orig
                     if ec_when == "after-prior":
-                        eng = copy_of(eng, ec_kind)
+                        eng = engine_copy(eng)
                     elif ec_when == "midrun-of-prior":
                         eng = grabbed[0]  # the copy taken while the original was pricing; the original has finished since
                     for d in (rec.samples, rec.batches, rec.pending, rec.regime):
@@ -700,6 +792,8 @@ def run_once(sh, case, chooser, extras=False):
                     if stats is not None and not pools.log and case["N0"] != 0:
                         sh.violation(f"C05:{variant}:harness:pool-branch-not-taken",
                                      f"nb_of_processes={case.get('procs')!r} but the engine never used the pool", None)
+    except CopyRefused:
+        outcome = "copy-refused"
     finally:
         MLMCStatistics.set_mlmc_results = orig
         chooser.choose = real_choose
@@ -719,7 +813,7 @@ def run_once(sh, case, chooser, extras=False):
                     try:
                         copies.append((kind, copy_of(stats, kind)))
                     except Exception as e:  # noqa
-                        sh.violation(f"C05:{variant}:copy-of-statistics-raises:return:{kind}:{type(e).__name__}", f"{variant}: {e!r}", None)
+                        copy_refused(sh, f"C05:{variant}:copy-of-statistics-raises:return", kind, e)
             compare_state(sh, case, rec, stats, Nl_final, None, "return", variant, final)
             for kind, cp in copies:
                 compare_state(sh, case, rec, cp, np.asarray(cp.mlmc_results.Nl), None, "return", f"{variant}:{kind}-of-statistics")
@@ -760,7 +854,7 @@ def check_case(sh, case):
         traj, outcome, rec, final = run_once(sh, case, ch, extras=extras)
         state["copied"] = True
         trajectories.add((traj, outcome))
-        if case["N0"] == 0 and final is not None:
+        if (case["N0"] == 0 or (case["bound"] == 0 and "orders_first" not in case)) and final is not None:
             degenerate[0] += 1
         sh.count("runs")
         sh.outcome((traj, outcome))
@@ -773,7 +867,7 @@ def check_case(sh, case):
             if final is None or "refm" not in final or final["Nl"] is None:
                 return
             variant, refm, detail = final["variant"], final["refm"], {"regimes": final["regimes"]}
-            if state["first"] and case.get("shard", [0, 1])[0] == 0:
+            if state["first"] and case.get("shard", [0, 1])[0] == 0 and case["sub"] != "fixed-pool":
                 orders = []
                 if "orders_first" in case:
                     # (d) every order of the six quantities that starts with the case's first quantity
@@ -802,7 +896,7 @@ def check_case(sh, case):
                         try:
                             cp = copy_of(res, kind)
                         except Exception as e:  # noqa
-                            sh.violation(f"C05:{variant}:copy-of-results-raises:{kind}:{type(e).__name__}", f"{variant}: {e!r}", detail)
+                            copy_refused(sh, f"C05:{variant}:copy-of-results-raises", kind, e)
                             continue
                         key = f"C05:{variant}:reported-%s-differs-on-a-{kind}-of-the-results:read-{k}-before"
                         bad = compare_reported(sh, cp, refm, SCRIPTS_ORDER, key, f"{variant}:{kind}-of-results", detail,
